@@ -39,6 +39,7 @@ type rdocRes struct {
 	build   string
 	answers []string // per query, in the order of queries()
 	again   string   // a question answered differently when asked again
+	rerun   string   // what a second run over the first run's output changed
 	ran     bool
 }
 
@@ -309,7 +310,9 @@ func (c *rdocCase) probe(pkg string) string {
 }
 
 func rdocJob(cases []*rdocCase) *genJob {
-	job := &genJob{Files: map[string]string{}, Gens: []string{"runtimedoc"}, Runs: 1, ProbeCommon: rdocProbeCommon, Probes: map[string]string{}}
+	// two runs (the second over a package that holds the output of the first) under an output base name that is not the
+	// default one: what is compiled and asked is what the second run left
+	job := &genJob{Files: map[string]string{}, Gens: []string{"runtimedoc"}, Runs: 2, Base: "zz_docs", ProbeCommon: rdocProbeCommon, Probes: map[string]string{}}
 	for i, c := range cases {
 		pkg := fmt.Sprintf("p%d", i)
 		job.Files[pkg+"/a.go"] = c.source(pkg)
@@ -323,12 +326,27 @@ func (c *rdocCase) fill(out *genRunOut, i int) {
 	pkg := fmt.Sprintf("p%d", i)
 	r := &rdocRes{}
 	if len(out.ExecErr) > 0 {
-		r.execErr = out.ExecErr[0]
+		for _, e := range out.ExecErr {
+			if e != "" && r.execErr == "" {
+				r.execErr = e
+			}
+		}
 	} else {
 		r.execErr = "not run " + out.Harness
 	}
-	if len(out.BuildFail) > 0 {
-		r.build = out.BuildFail[0][pkg]
+	if n := len(out.BuildFail); n > 0 {
+		r.build = out.BuildFail[n-1][pkg]
+		if r.build == "" && n > 1 {
+			r.build = out.BuildFail[0][pkg]
+		}
+	}
+	if n := len(out.Generated); n > 1 && r.execErr == "" {
+		// the second run writes what the first wrote
+		for rel, txt := range out.Generated[0] {
+			if strings.HasPrefix(rel, pkg+"/") && out.Generated[n-1][rel] != txt {
+				r.rerun = "the second run changed " + rel + " (or removed it)"
+			}
+		}
 	}
 	qs := c.queries()
 	r.answers = make([]string, len(qs))
@@ -418,6 +436,9 @@ func (c *rdocCase) Oracle(out string) string {
 	}
 	if r.again != "" {
 		return r.again
+	}
+	if r.rerun != "" {
+		return r.rerun
 	}
 	for k, q := range c.queries() {
 		t := c.Types[q.typ]
@@ -717,7 +738,7 @@ func init() {
 			Name: "packages", Quick: 480, Thorough: 3600, New: func() Case { return &rdocCase{} },
 			Gen:      func(r *Rng, i int) Case { return genRdoc(r) },
 			BatchRun: rdocBatch, ShrinkBudget: 25, MaxShrinks: 6,
-			Rule: "packages of 2–6 types: exported and unexported structs (plain, generic) with exported / unexported / inline-struct / empty-struct fields and fields embedded by value and by pointer, defined int / map / slice / func / string types, interfaces; comments that belong to no declaration on lines of code directly above undocumented fields and types (after a struct's opening brace, behind a one-line function); doc comments from a menu with the name as first word, as a prefix of a longer word, alone, quotes, backslashes, %d, %v, @name, backquotes, non-ASCII, blank lines and tag lines; the real generator (120 packages per Execute), go build, and one probe program per batch calling RuntimeDoc on every exported non-interface type for (), F0…F2, f0, T0, T1 and an unknown name, every question asked three times in one process (in order, in order again, in reverse order: an answer may not depend on what was asked before); compared with the model query by query; oracle: the doc text the harness wrote, and the same answer each time",
+			Rule: "packages of 2–6 types: exported and unexported structs (plain, generic) with exported / unexported / inline-struct / empty-struct fields and fields embedded by value and by pointer, defined int / map / slice / func / string types, interfaces; comments that belong to no declaration on lines of code directly above undocumented fields and types (after a struct's opening brace, behind a one-line function); doc comments from a menu with the name as first word, as a prefix of a longer word, alone, quotes, backslashes, %d, %v, @name, backquotes, non-ASCII, blank lines and tag lines; the real generator (120 packages per Execute) run twice under the output base name zz_docs — the second run over packages that hold the first run's output, and it must write the same files —, go build of what the second run left, and one probe program per batch calling RuntimeDoc on every exported non-interface type for (), F0…F2, f0, T0, T1 and an unknown name, every question asked three times in one process (in order, in order again, in reverse order: an answer may not depend on what was asked before); compared with the model query by query; oracle: the doc text the harness wrote, and the same answer each time",
 		},
 	}})
 }
